@@ -333,7 +333,15 @@ class STok:
 
     def _bin(self, op, o, rev=False):
         ot = getattr(o, "term", ("const", repr(o)))
-        return STok((op, ot, self.term) if rev else (op, self.term, ot), self.shape)
+        st, flip = self.term, False
+        if op in ("mul", "div"):
+            # canonical form of a product: the sign of either factor is the sign of the product
+            if isinstance(st, tuple) and st and st[0] == "neg":
+                st, flip = st[1], not flip
+            if isinstance(ot, tuple) and ot and ot[0] == "neg":
+                ot, flip = ot[1], not flip
+        r = STok((op, ot, st) if rev else (op, st, ot), self.shape)
+        return -r if flip else r
 
     def __mul__(self, o):
         return self._bin("mul", o)
@@ -703,7 +711,18 @@ def shaped_backend():
                 raise ValueError(f"concatenate of abstract blocks {[q.shape for q in parts]} along axis {axis}")
         shape = list(base)
         shape[axis] = sum(p.shape[axis] for p in parts)
-        return STok(("concat", axis, tuple((p.term, p.shape) for p in parts)), shape)
+        shape = tuple(shape)
+        term = ("concat", axis, tuple((p.term, p.shape) for p in parts))
+        from .layout import LayoutError, placements
+
+        try:
+            # one canonical form for structured blocks: the flat list of placed pieces
+            items = tuple(sorted(placements(term, shape).items(), key=repr))
+        except LayoutError:
+            return STok(term, shape)
+        if not items:
+            return STok(("zeros", shape), shape)
+        return STok(("placed", shape, items), shape)._simplified()
 
     def conj(t):
         term = t.term
@@ -722,6 +741,15 @@ def shaped_backend():
             return STok(("reshape", conj(STok(term[1], term[3])).term, term[2], term[3]), t.shape)
         if isinstance(term, tuple) and term and term[0] == "neg":
             return -conj(STok(term[1], t.shape))
+        if isinstance(term, tuple) and term and term[0] in ("concat", "placed"):
+            from .layout import LayoutError, placements
+
+            try:
+                pcs = placements(term, t.shape)
+            except LayoutError:
+                return STok(("conj", term), t.shape)
+            items = [(w, conj(STok(src_, tuple(b - a for a, b in w))).term) for w, src_ in pcs.items()]
+            return STok(("placed", t.shape, tuple(sorted(items, key=repr))), t.shape)
         return STok(("conj", term), t.shape)
 
     def einsum(eq, *ops):
@@ -778,6 +806,9 @@ class ZTok(STok):
         self.term = ("placed", tuple(self.shape), tuple(sorted(self.placed.items(), key=repr))) if self.placed else ("zeros", tuple(self.shape))
 
 
+SIGN_EVEN = ("abs", "absolute", "isfinite", "isnan", "isinf")
+
+
 def shaped_libfn(table=None):
     table = table or shaped_backend()
 
@@ -792,6 +823,11 @@ def shaped_libfn(table=None):
 
         def generic(*args, **kwargs):
             shp = next((a.shape for a in args if isinstance(a, STok)), ())
+            if short in SIGN_EVEN and len(args) == 1 and isinstance(args[0], STok):
+                # f(-t) = f(t): of the two canonical forms of +-t keep the smaller one
+                a, b = args[0], -args[0]
+                t = min((a.term, b.term), key=repr)
+                return STok((short, t), shp)
             head = {"sum": "total"}.get(short, short)  # ("sum", ...) is the canonical form of an addition of terms
             return STok((head,) + tuple(getattr(a, "term", ("const", repr(a))) for a in args), shp)
 
